@@ -21,7 +21,9 @@ def handle (j : Json) : Json :=
     (if nErr > 1 then ["multi.many"] else []) ++
     (if m.errs.any (fun e => !e.rpath.isEmpty) then ["err.nested"] else []) ++
     (if m.errs.any (fun e => e.field == "required") then ["err.required"] else []) ++
-    (if m.errs.any (fun e => e.value.isNone) then ["err.novalue"] else [])
+    (if m.errs.any (fun e => e.value.isNone) then ["err.novalue"] else []) ++
+    (if env.asreq then ["ctx.asreq"] else []) ++ (if env.asrep then ["ctx.asrep"] else []) ++
+    (if m.errs.any (fun e => e.field == roErr.field) then ["err.readWriteOnly"] else [])
   jobj [("model", jobj [("dflt", resJson d), ("multi", resJson m), ("failfast", Json.bool f.isOk)]),
         ("spec", jobj [("sat", Json.bool sp)]),
         ("excl", Json.arr #[]), ("branches", jstrs br)]
